@@ -25,3 +25,4 @@ func verifConcretize(v uint64) uint64
 func verifSymBytes(name string, b []byte)
 func verifSortTies(on bool)
 func verifThreadsBlocked() int
+func verifParam(name string, def int) int
